@@ -946,6 +946,44 @@ fn gen_gen(thorough: bool, r: &mut Rng, emit: Emit) {
         }
         emit(&format!("gen {}", toks.join(" ")));
     }
+    // 3b. refused declarations: the real size is declared (early or in the middle), then other sizes —
+    //     smaller, larger, zero, on block-size borders, above the limit — are declared at various
+    //     points and must be refused without any effect on the generator (round-2 seeded change C12:
+    //     a refused smaller size rewrote the fork limit)
+    for _ in 0..(if thorough { 1500 } else { 250 }) {
+        let len = match r.below(4) { 0 => r.range(0, 700), 1 => r.range(400, 6000), _ => r.range(400, maxlen) } as usize;
+        let data = rand_payload(r, len);
+        let mut toks: Vec<String> = vec![];
+        let ncuts = r.range(1, 5) as usize;
+        let mut cuts: Vec<usize> = (0..ncuts).map(|_| match r.below(3) { 0 => 0, 1 => r.range(0, 64.min(len as u64)) as usize, _ => r.range(0, len as u64) as usize }).collect();
+        cuts.sort();
+        let declare_at = r.below(ncuts as u64 + 1) as usize; // index of the cut where the real size is declared (ncuts = never)
+        let mut pos = 0usize;
+        for (ci, &c) in cuts.iter().enumerate() {
+            chunked(r, &data[pos..c], &mut toks, true);
+            pos = c;
+            if ci == declare_at { toks.push(format!("{}:{}", if r.chance(1, 2) { "s" } else { "S" }, len)); }
+            if r.chance(2, 3) {
+                let l = len as u64;
+                let m = match r.below(9) {
+                    0 => 0,
+                    1 => r.range(0, 200),
+                    2 => l / 2,
+                    3 => l >> r.range(1, 12),
+                    4 => l.saturating_sub(1),
+                    5 => l + 1,
+                    6 => 192u64 << r.range(0, 20),
+                    7 => (192u64 << 30) + r.range(1, 1000),
+                    _ => l,
+                };
+                toks.push(format!("s:{}", m));
+            }
+        }
+        chunked(r, &data[pos..], &mut toks, true);
+        if declare_at == ncuts && r.chance(1, 2) { toks.push(format!("s:{}", len)); }
+        toks.push("f".into());
+        emit(&format!("gen {}", toks.join(" ")));
+    }
     // 4. first phases that eliminate levels / activate the last hash, then reset, then a hint
     for _ in 0..(if thorough { 300 } else { 60 }) {
         let lvl = r.range(8, 30) as usize;
